@@ -322,3 +322,23 @@ PROPS["C14"] = dict(
     engines=[pbt("c14_crc", libs=["rapidcheck", "snappy", "lz4"], quick=dict(cases=40, size=60, enum=1, procs=8), thorough=dict(cases=600, size=100, enum=2, procs=16))],
     min_evaluations=dict(quick=100000, thorough=2000000),
 )
+
+PROPS["C18"] = dict(
+    title="Truncated files are rejected and failed writes are never reported OK",
+    level="fault_enumeration",
+    design_ref="DESIGN.md section 8, C18",
+    level_text=("Fault enumeration over generated write histories: (prefixes) every proper prefix of files up to 4 KiB - for larger files the last 256 bytes, the first 64, every "
+                "page/footer boundary +-2 and 300 random cuts - is opened by path with stdio, by path with mmap and from an exact-size buffer and must be rejected with an error "
+                "code unless the independent reader accepts the prefix as a complete file; (sink) a fopencookie FILE* whose write callback fails (0 return or short write) once a "
+                "byte budget is exhausted, for every budget 0..len+1 (files up to 1500 bytes) under unbuffered, line-buffered and fully buffered streams: budget < len requires a "
+                "non-OK status from some writer call, budget >= len requires all OK and byte-identical sink contents; (stdio) for the path-based writer the n-th fwrite/fflush/fclose "
+                "issued by carquet fails (link-time --wrap), every n; (abort) carquet_writer_abort after every prefix of the call script leaves no file, no open descriptor "
+                "(/proc/self/fd count) and no leak (LeakSanitizer)."),
+    level_note="exhaustive over cut positions / byte budgets / stream-operation indices / abort points of each generated file; the files themselves are sampled",
+    technique="fault injection enumerated over cut positions, sink byte budgets, stdio call indices and abort points of generated write histories (rapidcheck generates the histories)",
+    rule=("evaluations count (file, fault point[, mode]) executions. Non-trivial: prefixes - a cut inside the footer, between footer and length or inside the trailing magic; sink - a "
+          "failure within the last 4096 bytes under full buffering (absorbed by stdio until close); stdio - at least 4 stream operations; abort - at least 2 calls."),
+    assumptions=["open_buffer is never given size 0 with a NULL pointer; a zero-length prefix is passed as a valid pointer of size 0"],
+    engines=[pbt("c18_truncation", libs=["rapidcheck", "snappy", "lz4"], ldflags=["-Wl,--wrap=fwrite,--wrap=fflush,--wrap=fclose"], quick=dict(cases=24, size=60, procs=8), thorough=dict(cases=400, size=100, procs=16))],
+    min_evaluations=dict(quick=20000, thorough=400000),
+)
